@@ -39,6 +39,7 @@ RightPin(h, u, pin)          == (h \in DOMAIN sess /\ u \in {"user", "so"})
                                    => pin = (IF u = "so" THEN tok[sess[h].t].so ELSE tok[sess[h].t].user)
 MLogin(h, u, pin)            == h \in SArgs /\ u \in UArgs /\ "sess" \in Acts
                                 /\ ("rightpin" \in Acts => RightPin(h, u, pin)) /\ Login(h, u, pin)
+MVanish(t)                   == "vanish" \in Acts /\ SessionsOf(t) # {} /\ Vanish(t)
 MLogout(h)                   == h \in SArgs /\ "sess" \in Acts /\ Logout(h)
 MInitToken(t, pin)           == "pin" \in Acts /\ InitToken(t, pin)
 MInitPIN(h, pin)             == h \in SArgs /\ "pin" \in Acts /\ InitPIN(h, pin)
@@ -78,6 +79,7 @@ Next ==
     \/ \E h \in HS : MClose(h)
     \/ \E h \in HS : MInfo(h)
     \/ \E h \in HS : MLogout(h)
+    \/ \E t \in Tokens : MVanish(t)
     \/ \E t \in Tokens : MCloseAll(t)
     \/ \E h \in HS, u \in Users, pin \in LoginPins : MLogin(h, u, pin)
     \/ \E t \in Tokens, pin \in LoginPins : MInitToken(t, pin)
